@@ -47,7 +47,7 @@ func init() {
 		Header:   "From ZenoV Require Import Lib.Harness Safe.SafeHarness.\n",
 		CaseType: "fcase",
 		Footer:   "\nDefinition DIFF := Eval vm_compute in fdiffs cases.\nPrint DIFF.\nDefinition MON := Eval vm_compute in fmons cases.\nPrint MON.\n",
-		Rule:     "one case = (target, input): target in html (HTMLOutlinks+HTMLAssets), json, xml (+IsSitemapXML), sitemap, s3 (both listing styles), m3u8, pdf, post (postprocessItem with sniffed or deliberately wrong Content-Type), norm (NormalizeURL with and without parent), linkhdr, script, body (ProcessBody), arch (the real ProcessBody on an http.Response - status incl. 1xx/204/304, Content-Type, Location incl. values net/url refuses, body incl. empty and http.NoBody - then the real postprocessItem at depth 0-2; also checks that ProcessBody returning nil has set the MIME), site (reddit / ina / truthsocial / facebook entry points called directly), sitepost (postprocessItem on URLs that route to the site-specific arms - reddit info.json and pages, truthsocial account / lookup / statuses / posts, ina API and pages, facebook - with structure-aware API answers: fields missing, null, empty, wrongly typed, dist independent of children; domains crawl on/off, hop limit reached or not, depth 0-2); input = recipe (generator kind valid|mut|heavy|splice|patho|rand + seed) or explicit hex; run in a child process with recover(), watchdog and address-space cap; distinct by input text; non-trivial when the target accepted the input (returned without error)",
+		Rule:     "one case = (target, input): target in html (HTMLOutlinks+HTMLAssets), json, xml (+IsSitemapXML), sitemap, s3 (both listing styles), m3u8, pdf, post (postprocessItem with sniffed or deliberately wrong Content-Type), norm (NormalizeURL with and without parent), linkhdr, script, body (ProcessBody), arch (the real ProcessBody on an http.Response - status incl. 1xx/204/304, Content-Type, Location incl. values net/url refuses, body incl. empty and http.NoBody - then the real postprocessItem at depth 0-2 with domains crawl off / plain domains / regular expressions / mixed; also checks that ProcessBody returning nil has set the MIME), site (reddit / ina / truthsocial / facebook entry points called directly), sitepost (postprocessItem on URLs that route to the site-specific arms - reddit info.json and pages, truthsocial account / lookup / statuses / posts, ina API and pages, facebook - with structure-aware API answers: fields missing, null, empty, wrongly typed, dist independent of children; domains crawl off / plain / stored URLs / regular expressions / mixed, hop limit reached or not, depth 0-2), dcpost (postprocessItem on pages, sitemaps and texts - plus a Link header - whose links are of the classes the domains-crawl matcher's URL parser refuses: non-ASCII, `/` or `?` in the query, long ports, control bytes, texts net/url refuses and that are kept raw; under every class of domains-crawl configuration: off, plain domains only, stored URLs only, regular expressions only, mixed, enabled and empty; the process-global matcher is reset for every input; hop limit reached or not, depth 0-2); input = recipe (generator kind valid|mut|heavy|splice|patho|rand + seed) or explicit hex; run in a child process with recover(), watchdog and address-space cap; distinct by input text; non-trivial when the target accepted the input (returned without error)",
 		Setup:    setupFuzz,
 		Gen:      genFuzz,
 		Exec:     execFuzz,
@@ -290,10 +290,13 @@ func runTarget(target string, data []byte, tmp string) string {
 		if flags&32 != 0 {
 			u.SetHops(1)
 		}
+		// domains crawl (process-global matcher, reset for every input): off, or by bits 6-7 plain domains only /
+		// regular expressions only / mixed
 		dc := flags&4 != 0
 		domainscrawl.Reset()
+		defer domainscrawl.Reset()
 		if dc {
-			domainscrawl.AddElements([]string{"site.example"})
+			dc = applyDC([]int{7, 2, 5, 6}[flags>>6])
 		}
 		item := models.NewItem("fz", u, "")
 		parent := item
@@ -312,7 +315,6 @@ func runTarget(target string, data []byte, tmp string) string {
 			item.SetStatus(models.ItemFailed)
 		}
 		postprocessor.VerifC10PostprocessItem(item)
-		domainscrawl.Reset()
 		if err == nil && (u.GetResponse() == nil || u.GetMIMEType() == nil || u.GetParsed() == nil) {
 			panic("archiver invariant broken: ProcessBody returned nil but response / MIME type / parsed URL is not set")
 		}
@@ -340,11 +342,50 @@ func runTarget(target string, data []byte, tmp string) string {
 		}
 		item.SetStatus(models.ItemArchived)
 		domainscrawl.Reset()
-		if flags&1 != 0 {
-			domainscrawl.AddElements([]string{"reddit.com", "truthsocial.com"})
+		defer domainscrawl.Reset()
+		if flags&1 != 0 { // by bits 4-5: plain domains only / mixed / stored URLs only / regular expressions only
+			applyDC([]int{7, 6, 4, 2}[(flags>>4)&3])
 		}
 		postprocessor.VerifC10PostprocessItem(item)
-		domainscrawl.Reset()
+	case "dcpost":
+		// the REAL postprocessItem on a page / sitemap / text whose links are of the classes the domains-crawl
+		// matcher's URL parser refuses (and ones it accepts), under a domains-crawl configuration of every class:
+		// byte 0 = index into dcConfigs (0 = off), byte 1 = flags (bit 0 hop limit reached, bits 1-2 depth 0..2),
+		// then one link text for the Link header up to the first newline, then the body
+		for len(data) < 2 {
+			data = append(data, 0)
+		}
+		cfg, flags := int(data[0])%len(dcConfigs), data[1]
+		link, body, _ := bytes.Cut(data[2:], []byte("\n"))
+		ct, srv := sniffCT(body)
+		hdr := http.Header{}
+		if ct != "" {
+			hdr.Set("Content-Type", ct)
+		}
+		if srv != "" {
+			hdr.Set("Server", srv)
+		}
+		if len(link) > 0 {
+			hdr["Link"] = []string{"<" + string(link) + ">; rel=\"next\""}
+		}
+		u := docURL(pageURL, 200, hdr, body)
+		u.SetMIMEType(mimetype.Detect(body[:min(len(body), 2048)]))
+		if flags&1 != 0 {
+			u.SetHops(1) // MaxHops is 1: outlinks only with domains crawl, unmatched ones are dropped
+		}
+		item := models.NewItem("fz", u, "")
+		parent := item
+		for d := (int(flags>>1) & 3) % 3; d > 0; d-- {
+			pu := &models.URL{Raw: "https://parent.example/"}
+			pu.Parse()
+			up := models.NewItem("fz-parent", pu, "")
+			up.AddChild(parent, models.ItemGotChildren)
+			parent = up
+		}
+		item.SetStatus(models.ItemArchived)
+		defer domainscrawl.Reset()
+		applyDC(cfg)
+		postprocessor.VerifC10PostprocessItem(item)
 	case "site":
 		fu := &models.URL{Raw: "https://www.facebook.com/user/posts/" + string(data[:min(len(data), 40)])}
 		if fu.Parse() == nil && facebook.IsFacebookPostURL(fu) {
